@@ -633,7 +633,13 @@ class Messenger(Connection):
         ''' Handle an idle timer timeout. '''
         self._idle_stop()
         self._logger.debug('Idle time reached')
-        self.send_sess_term(messages.SessionTerm.Reason.IDLE_TIMEOUT, False)
+        if self._in_term:
+            # Already terminating and the peer stays silent
+            self.close()
+        else:
+            self.send_sess_term(messages.SessionTerm.Reason.IDLE_TIMEOUT, False)
+            # give the peer one more idle period to answer
+            self._idle_reset()
         return False
 
     def recv_raw(self, data):
@@ -995,7 +1001,9 @@ class Messenger(Connection):
         self.send_ready()
 
         self._keepalive_reset()
-        self._idle_reset()
+        if not self._in_term:
+            # once terminating only the peer can postpone the idle timeout
+            self._idle_reset()
 
     def send_reject(self, reason, pkt=None):
         ''' Send a message rejection response.
